@@ -292,8 +292,8 @@ func (fr *Frame) applyContract(st *State, ct *Contract, f *ssa.Function, sig *ty
 			if f != nil && len(f.Params) > 0 && sig.Recv() != nil {
 				nm = f.Params[0].Name()
 			}
-			env.vars[nm] = envVar{args[0], rt}
-			env.vars["self"] = envVar{args[0], rt}
+			env.vars[nm] = envVar{t: args[0], ty: rt}
+			env.vars["self"] = envVar{t: args[0], ty: rt}
 			i = 1
 		}
 		ps := sig.Params()
@@ -303,8 +303,8 @@ func (fr *Frame) applyContract(st *State, ct *Contract, f *ssa.Function, sig *ty
 				nm = f.Params[i+j].Name()
 			}
 			if i+j < len(args) {
-				env.vars[nm] = envVar{args[i+j], ps.At(j).Type()}
-				env.vars[fmt.Sprintf("arg%d", j)] = envVar{args[i+j], ps.At(j).Type()}
+				env.vars[nm] = envVar{t: args[i+j], ty: ps.At(j).Type()}
+				env.vars[fmt.Sprintf("arg%d", j)] = envVar{t: args[i+j], ty: ps.At(j).Type()}
 			}
 		}
 		for _, l := range ct.lets {
